@@ -324,7 +324,7 @@ def numpyEngineLines (ft : FloatTable) (maxRows : Nat) (rest : List Str) : Optio
   if maxRows < 1 then none
   else
     match npFirstCount rest with
-    | none => some [.floats []]            -- empty input: shape (1, 0), one empty column
+    | none => some []                      -- no data row at all: `array.reshape(0, 0)`, no columns
     | some c =>
       match npCollect c maxRows rest with
       | none => none
